@@ -103,10 +103,11 @@ IsIdentifier(s) ==
 \* scanning state after each character: 0 plain, 1 after a backslash, 2 a bare terminator was met
 ScanState(s, term) ==
   LET st[i \in 0..Len(s)] == IF i = 0 THEN 0
-                             ELSE IF st[i - 1] = 2 THEN 2
-                             ELSE IF st[i - 1] = 1 THEN 0
-                             ELSE IF s[i] = 92 THEN 1
-                             ELSE IF s[i] = term THEN 2 ELSE 0
+                             ELSE LET q == st[i - 1] IN          \* (bound once: a function is not memoised)
+                                  IF q = 2 THEN 2
+                                  ELSE IF q = 1 THEN 0
+                                  ELSE IF s[i] = 92 THEN 1
+                                  ELSE IF s[i] = term THEN 2 ELSE 0
   IN st[Len(s)]
 RECURSIVE HexRun(_, _)
 HexRun(s, i) == IF i <= Len(s) /\ HexVal(s[i]) >= 0 THEN HexRun(s, i + 1) ELSE i
